@@ -31,7 +31,8 @@ FALLBACK = ("From Bermuda Require Import Model.Base Model.Select.\n"
 
 
 # =============================================================================== generation
-FEBS = [(2100, "not leap (div. by 100)"), (1900, "not leap"), (2096, "leap"), (2000, "leap (div. by 400)")]
+FEBS = [(2100, "not leap (div. by 100)"), (1900, "not leap"), (2096, "leap"), (2000, "leap (div. by 400)"),
+        (2200, "not leap, far future")]
 
 
 def february_triangle(rng, k):
@@ -48,13 +49,80 @@ def february_triangle(rng, k):
         pe = jc.add_months_end(ps, 0)
         for lag in rng.sample(range(0, 7), 3):
             ev = jc.add_months_end(pe, lag)
-            if ev.year > 2100:
-                continue
             cells.append(b.CumulativeCell(period_start=ps, period_end=pe, evaluation_date=ev,
                                           values={"paid_loss": 100 * p + lag}, metadata=m))
     rng.shuffle(cells)
     return jc.mk_triangle(cells), {"layout": f"february-{year}", "basis": "cum", "n_slices": 1, "values": "int",
                                    "slice_diff": "-", "fields": ["paid_loss"]}
+
+
+def special_triangles(rng):
+    """small directed triangles that run on every quick run (notes/HARDENING.md):
+    B  metadata None vs "" vs missing, limit 0 vs None, slices differing only in loss_details
+    D  cells built from datetime.datetime / pandas.Timestamp / a datetime subclass with a time of day
+    E  falsy field values (0, 0.0, None, all-None field) and falsy detail values (0 == False, "", None)
+    F  the empty triangle, one cell, a field missing in the first cell / present only later
+    G  NumPy corner types (big int64, float64, float32/int32/strided/size-1 arrays; bool and 0-d: python only)"""
+    import pandas as pd
+
+    b = jc.bermuda()
+    out = []
+    P = [(D(2021, 1, 1), D(2021, 3, 31)), (D(2021, 4, 1), D(2021, 6, 30))]
+    E = [D(2021, 3, 31), D(2021, 6, 30), D(2021, 9, 30)]
+
+    def cells_for(metas, valf):
+        cs = []
+        for mi, m in enumerate(metas):
+            for pi, (s0, e0) in enumerate(P):
+                for ei, ev in enumerate(E[pi:]):
+                    cs.append(b.CumulativeCell(period_start=s0, period_end=e0, evaluation_date=ev,
+                                               values=valf(mi, pi, ei), metadata=m))
+        rng.shuffle(cs)
+        return cs
+
+    # E: falsy detail values; 0 == False is ONE slice, "" / None / missing are different slices
+    metas = [b.Metadata(details={"a": 0}), b.Metadata(details={"a": False}), b.Metadata(details={"a": 1}),
+             b.Metadata(details={"s": ""}), b.Metadata(details={"s": "x"}), b.Metadata(details={"k": None}), b.Metadata()]
+    out.append((cells_for(metas[:4], lambda mi, pi, ei: {"paid": 0 if ei == 0 else mi, "rep": 0.0, "x": None}),
+                "falsy-details-a"))
+    out.append((cells_for(metas[3:], lambda mi, pi, ei: ({"x": None} if ei == 0 else {"x": None, "late": 0, "paid": 5.0})),
+                "falsy-details-b/field-only-later"))
+    # B: None vs "" vs missing; limit 0 vs None; only loss_details differ
+    metas = [b.Metadata(country=None), b.Metadata(country=""), b.Metadata(country="", per_occurrence_limit=0),
+             b.Metadata(country="", per_occurrence_limit=0.0, loss_details={"cov": "x"}),
+             b.Metadata(country="", per_occurrence_limit=0, loss_details={"cov": "y"}), b.Metadata(risk_basis=None)]
+    out.append((cells_for(metas, lambda mi, pi, ei: {"paid": 10 * mi + ei}), "none-vs-empty-vs-zero-metadata"))
+    # F: empty, one cell
+    out.append(([], "empty"))
+    out.append((cells_for([b.Metadata()], lambda mi, pi, ei: {"paid": 1})[:1], "one-cell"))
+    # D: datetime-like constructor arguments with a time of day; results must hold plain dates
+
+    class MyDT(datetime.datetime):
+        pass
+
+    cs = []
+    for pi, (s0, e0) in enumerate(P):
+        for ei, ev in enumerate(E[pi:]):
+            mk = [lambda d: datetime.datetime(d.year, d.month, d.day, 13, 5), lambda d: pd.Timestamp(d.year, d.month, d.day, 23, 59),
+                  lambda d: MyDT(d.year, d.month, d.day, 0, 0, 1)][(pi + ei) % 3]
+            cs.append((b.CumulativeCell if ei % 2 else b.Cell)(period_start=mk(s0), period_end=mk(e0), evaluation_date=mk(ev),
+                                                               values={"paid": ei}, metadata=b.Metadata(country="US"))
+                      if False else b.CumulativeCell(period_start=mk(s0), period_end=mk(e0), evaluation_date=mk(ev),
+                                                     values={"paid": ei}, metadata=b.Metadata(country="US")))
+    out.append((cs, "built-from-datetimes"))
+    # G: NumPy corner types
+    a6 = np.arange(6, dtype=np.int64)
+    out.append((cells_for([b.Metadata()], lambda mi, pi, ei: {
+        "big": np.int64(2 ** 53 + 1 + ei), "f64": np.float64(0.5 + ei), "a32": np.array([1.5, 2.5 + ei], dtype=np.float32),
+        "i32": np.array([1, 2 + ei], dtype=np.int32), "s1": np.array([5 + ei]), "strided": a6[::2] + ei}), "numpy-types-a"))
+    out.append((cells_for([b.Metadata()], lambda mi, pi, ei: {
+        "flag": bool(ei % 2), "z0": np.array(5 + ei), "i16": np.array([1, ei], dtype=np.int16),
+        "bools": np.array([True, False])}), "numpy-types-b(python-only)"))
+    res = []
+    for cs, name in out:
+        res.append((jc.mk_triangle(cs), {"layout": "special:" + name, "basis": "cum", "n_slices": "-", "values": "-",
+                                         "slice_diff": "-", "fields": [], "n_cells": len(cs)}))
+    return res
 
 
 def gen_triangle(g: Gen, rng: random.Random, k: int):
@@ -233,6 +301,16 @@ def ops_for(t, rng, quick=True):
             ops.append({"kind": "clip", "kw": {key: 0}})
             ops.append({"kind": "clip", "kw": {key: 0.0, "dev_lag_unit": "month"}})
     ops.append({"kind": "clip", "kw": {"min_dev": 0, "max_dev": 0, "dev_lag_unit": "day"}})
+    if cells and not aligned:
+        # month unit on cells evaluated off a month end (python oracle only): bounds exactly at the cells' own
+        # fractional lags are inclusive, the next float beyond excludes
+        import math
+
+        fl = sorted({month_lag_any(c) for c in cells})
+        for x in pick_some(rng, fl, 4, always=fl[:1] + fl[-1:]):
+            for key, beyond in (("min_dev", math.inf), ("max_dev", -math.inf)):
+                ops.append({"kind": "clip", "kw": {key: x, "dev_lag_unit": "month"}})
+                ops.append({"kind": "clip", "kw": {key: math.nextafter(float(x), beyond)}})
     if aligned:
         mlags = sorted({jc.month_id(c.evaluation_date) - jc.month_id(c.period_end) for c in cells})
         for key in ("min_dev", "max_dev"):
@@ -556,6 +634,23 @@ def month_lag(c):
     return jc.month_id(c.evaluation_date) - jc.month_id(c.period_end)
 
 
+def month_lag_fraction(c):
+    """the documented fractional month lag (months between, each date counted as day / days-in-month),
+    written independently with calendar.monthrange; used for cells that are not month-aligned"""
+    import calendar
+
+    a, b_ = c.period_end, c.evaluation_date
+    fa = a.day / calendar.monthrange(a.year, a.month)[1]
+    fb = b_.day / calendar.monthrange(b_.year, b_.month)[1]
+    return 12 * (b_.year - a.year) + (b_.month - a.month) - fa + fb
+
+
+def month_lag_any(c):
+    if jc.is_month_end(c.period_end) and jc.is_month_end(c.evaluation_date):
+        return month_lag(c)
+    return month_lag_fraction(c)
+
+
 def want_clip(t, kw):
     kw = clip_kw(kw)
     unit = kw.get("dev_lag_unit", "month").lower()
@@ -563,7 +658,7 @@ def want_clip(t, kw):
     def lag(c):
         if unit == "timedelta":
             return c.evaluation_date - c.period_end
-        return (c.evaluation_date - c.period_end).days if "day" in unit else month_lag(c)
+        return (c.evaluation_date - c.period_end).days if "day" in unit else month_lag_any(c)
 
     out = []
     for c in t.cells:
@@ -772,6 +867,109 @@ def oracle(t, op, res):
     return probs
 
 
+# =============================================================================== state, spellings, refusals
+def canon_result(res):
+    if isinstance(res, BaseException):
+        return ("raised", type(res).__name__)
+    if hasattr(res, "cells"):
+        return ("tri", tuple(jc.canon_seq(res.cells)))
+    if isinstance(res, dict):
+        return ("dict", tuple((repr(k), tuple(jc.canon_seq(v.cells))) for k, v in res.items()))
+    if isinstance(res, tuple):
+        return ("tuple", tuple(canon_result(r) for r in res))
+    if isinstance(res, np.ndarray):
+        return ("array", repr(res.tolist()))
+    return ("cell", ct.canon_cell(res, ordered=True))
+
+
+def spoil(res, t):
+    """what a caller may do with a result: empty its containers"""
+    if res is t or isinstance(res, BaseException):
+        return
+    if hasattr(res, "_cells") and res._cells is not t._cells:
+        res._cells.clear()
+    elif isinstance(res, dict):
+        for v in res.values():
+            spoil(v, t)
+        res.clear()
+    elif isinstance(res, tuple):
+        for r in res:
+            spoil(r, t)
+    elif isinstance(res, np.ndarray) and res.size:
+        res[...] = None if res.dtype == object else 0
+
+
+def call_op(t, op):
+    try:
+        with warnings.catch_warnings():
+            warnings.simplefilter("ignore")
+            return run_op(t, op)
+    except Exception as ex:  # noqa: BLE001
+        return ex
+
+
+def state_and_spelling_stream(ctx, t, rng, fails):
+    """H: the same call twice, and again after the caller emptied the first result -- same answer, input
+    untouched.  K: keyword and positional spellings agree.  L: an unknown lag unit is refused iff a lag
+    bound is given."""
+    n = 0
+    before = jc.canon_seq(t.cells)
+    ops = [o for o in ops_for(t, random.Random(len(t)), True)
+           if o["kind"] in ("clip", "filter", "slices", "split", "right_edge", "select", "getitem", "extract", "clip_pair")]
+    for op in random.Random(len(t) + 1).sample(ops, min(14, len(ops))):
+        r1 = call_op(t, op)
+        c1 = canon_result(r1)
+        c1b = canon_result(call_op(t, op))
+        spoil(r1, t)
+        r3 = call_op(t, op)
+        n += 3
+        ctx.hist("state:twice+after-edit")
+        probs = []
+        if c1b != c1:
+            probs.append(f"{op['kind']}: the same call twice gives different results")
+        if canon_result(r3) != c1:
+            probs.append(f"{op['kind']}: the call after the caller emptied the earlier result gives another result")
+        if jc.canon_seq(t.cells) != before:
+            probs.append(f"{op['kind']}: the input triangle changed")
+        probs += oracle(t, op, r3)
+        if probs:
+            fails.append((t, {**op, "stream": "state"}, probs))
+    cells = t.cells
+    fields = sorted({k for c in cells for k in c.values})[:2]
+    d0 = cells[0].evaluation_date if cells else D(2020, 1, 31)
+    pairs = [
+        ("filter", lambda: t.filter(lambda c: c.evaluation_date <= d0), lambda: t.filter(predicate=lambda c: c.evaluation_date <= d0)),
+        ("select", lambda: t.select(fields), lambda: t.select(keys=fields)),
+        ("split", lambda: t.split(["a", "lob"]), lambda: t.split(detail_keys=["a", "lob"])),
+        ("extract", lambda: t.extract(fields[0] if fields else "x"), lambda: t.extract(attribute=fields[0] if fields else "x")),
+        ("clip unit spelling", lambda: t.clip(max_dev=40, dev_lag_unit="day"), lambda: t.clip(max_dev=40, dev_lag_unit="DAYS")),
+        ("clip unused unknown unit", lambda: t.clip(min_eval=d0), lambda: t.clip(min_eval=d0, dev_lag_unit="fortnight")),
+    ]
+    for name, f1, f2 in pairs:
+        n += 2
+        ctx.hist("spelling:" + name)
+        a, b_ = canon_result(_quiet(f1)), canon_result(_quiet(f2))
+        if a != b_ or a[0] == "raised":
+            fails.append((t, {"kind": "spelling", "name": name}, [f"{name}: the two spellings differ or a valid call was refused ({a[:2] if a[0] == 'raised' else ''} / {b_[:2] if b_[0] == 'raised' else ''})"]))
+    if cells:
+        for kw in ({"min_dev": 1}, {"max_dev": 0}):
+            n += 1
+            ctx.hist("refusal:unknown-lag-unit")
+            r = _quiet(lambda: t.clip(dev_lag_unit="fortnight", **kw))
+            if not isinstance(r, ValueError):
+                fails.append((t, {"kind": "refusal", "kw": kw}, [f"clip({kw}, dev_lag_unit='fortnight') on a non-empty triangle did not raise ValueError"]))
+    return n
+
+
+def _quiet(f):
+    try:
+        with warnings.catch_warnings():
+            warnings.simplefilter("ignore")
+            return f()
+    except Exception as ex:  # noqa: BLE001
+        return ex
+
+
 # =============================================================================== Coq cases
 def cgroups(res, cells, tname, ckey):
     return "[" + ";\n   ".join(f"({ckey(kk)}, {jc.out_cells_term(part.cells, cells, tname)})" for kk, part in res.items()) + "]"
@@ -786,6 +984,10 @@ def coq_cases(t, tname, op, res):
     if k not in ("getitem", "getitem2") and exc is not None:
         return [("false", "impl-raised")]
     oc = lambda r: jc.out_cells_term(r.cells, cells, tname)     # noqa: E731
+    if k == "clip" and "day" not in op["kw"].get("dev_lag_unit", "month").lower() \
+            and op["kw"].get("dev_lag_unit") != "timedelta" and not jc.month_aligned(t) \
+            and ("min_dev" in op["kw"] or "max_dev" in op["kw"]):
+        return []           # month lags of cells off a month end are not integers: python oracle only
     if k == "clip":
         a = jc.clip_args(clip_kw_model(op["kw"]))
         out.append((f"list_eqb cell_seqb (clip gen_clip {a} {tname}) {oc(res)}", "model"))
@@ -899,7 +1101,9 @@ def prepare(ctx):
 def run(ctx):
     ctx.rule = (
         "triangles from harness/gen.py (7 layouts x cumulative/incremental x 1-3 slices x int/float/array values, "
-        "plus monthly triangles around the Februaries of 1900/2000/2096/2100, slices differing only in where a key "
+        "plus directed special triangles on every run (falsy field/detail values, None vs '' vs 0 metadata, empty, one "
+        "cell, cells built from datetimes, NumPy corner types), a state stream (same call twice / after the caller "
+        "emptied the result), spellings and refusals, monthly triangles around the Februaries of 1900/2000/2096/2100/2200, slices differing only in where a key "
         "lives (details vs loss_details / attribute vs detail key), duplicate coordinates, equal-but-differently-written "
         "metadata inside one slice (>= 2 detail keys in another order, 7 vs 7.0, True vs 1), nested/overlapping periods inside a slice "
         "(same start other end, same end other start) and cells evaluated before their period end (negative lags)), "
@@ -940,17 +1144,21 @@ def correspond(ctx):
     cases = jc.Cases(ctx, "cases", IMPORTS)
     fails = []          # (t, op, problems)
     n_ops = 0
-    for k in range(n_tri):
+    with warnings.catch_warnings():
+        warnings.simplefilter("ignore")
+        specials = special_triangles(rng)
+    cases.triangles = {}
+    for k in range(n_tri + len(specials)):
         with warnings.catch_warnings():
             warnings.simplefilter("ignore")
-            t, info = gen_triangle(g, rng, k)
+            t, info = gen_triangle(g, rng, k) if k < n_tri else specials[k - n_tri]
+        tname = f"t{k}"
         try:
             lit = ct.ccells(t.cells)
+            cases.add_def(tname, lit, len(t))
         except ct.NotRepresentable:
-            ctx.hist("skipped:not-representable")
-            continue
-        tname = f"t{k}"
-        cases.add_def(tname, lit, len(t))
+            lit = None              # not expressible in the Coq data model: real operations + python oracles only
+            ctx.hist("python-only:not-representable")
         ctx.hist("tri:" + describe(info) + ("/dups" if info.get("dups") else "") + ("/alias" if info.get("alias") else "")
                  + ("/moved-key-slice" if info.get("moved") else "") + ("/nested-periods" if info.get("nested") else "") + ("/negative-lags" if info.get("early") else ""))
         tj = None
@@ -972,16 +1180,17 @@ def correspond(ctx):
             if len(t) >= 2 or isinstance(res, BaseException):
                 ctx.nontriv((tname, repr(op)))
             try:
-                for expr, tag in coq_cases(t, tname, op, res):
+                for expr, tag in (coq_cases(t, tname, op, res) if lit is not None else []):
                     cases.add(expr, {"k": k, "op": op, "tag": tag})
             except ct.NotRepresentable:
                 ctx.hist("skipped-coq:not-representable")
             if len(ctx.samples) < 3 and op["kind"] in ("clip", "getitem", "split") and len(t) >= 4 and rng.random() < 0.05:
                 tj = tj or jc.tri_to_json(t)
                 ctx.sample({"op": op, "triangle_cells": len(t), "result": (type(res).__name__ if not hasattr(res, "cells") else f"Triangle of {len(res.cells)} cells")})
-        cases.triangles = getattr(cases, "triangles", {})
         cases.triangles[k] = t
-    ctx.log(f"{n_tri} triangles, {n_ops} operations, {cases.total()} Coq cases in {len(cases.files)} files; "
+        if k % 9 == 4 or k >= n_tri:
+            n_ops += state_and_spelling_stream(ctx, t, rng, fails)
+    ctx.log(f"{n_tri} + {len(specials)} triangles, {n_ops} operations, {cases.total()} Coq cases in {len(cases.files)} files; "
             f"python oracles: {len(fails)} failing")
     bad, errs = cases.run(timeout=900 if ctx.quick else 2400)
     ctx.count(evaluations=n_ops + cases.total(), traces=cases.total())
@@ -1017,6 +1226,15 @@ def correspond(ctx):
 def replay(ctx, data):
     t = jc.tri_from_json(data["triangle"])
     op = data["op"]
+    if op.get("kind") in ("spelling", "refusal") or op.get("stream") == "state":
+        fails = []
+        state_and_spelling_stream(ctx, t, random.Random(0), fails)
+        for _, o, probs in fails:
+            for p in probs:
+                print("PROBLEM:", o.get("kind"), p)
+        if not fails:
+            print("the property holds on this input")
+        return 1 if fails else 0
     try:
         with warnings.catch_warnings():
             warnings.simplefilter("ignore")
